@@ -24,6 +24,7 @@ type Profile struct {
 	PRollout, PExperiment                     float64
 	PMalformed                                float64
 	PDocNoise                                 float64
+	PNestedSeg                                float64 // a weighted segment rule that first looks into another segment, split point next to the context's bucket
 	PSingleMal                                float64 // cases that are one well-formed flag with exactly one malformation, certainly reached
 	PZeroAge                                  float64 // the context certainly has "age": +0 or -0
 	PDateAttr                                 float64 // the context certainly has a "date" attribute
@@ -822,6 +823,14 @@ func (w *World) genSegment(key string) *J {
 			if kind != "" {
 				ru.Set("rolloutContextKind", JStr(kind))
 			}
+			if r.P(0.3) {
+				// a weighted rule that first looks into another segment: the bucket is still this segment's (its key, its salt)
+				other := r.Pick(segKeys)
+				if other != key {
+					cls.A = append([]*J{JObj(KV{"attribute", JStr("")}, KV{"op", JStr("segmentMatch")}, KV{"values", JArr(JStr(other))},
+						KV{"negate", JBool(r.P(0.5))})}, cls.A...)
+				}
+			}
 		}
 		rules.A = append(rules.A, ru)
 	}
@@ -1071,6 +1080,61 @@ func (w *World) genSingleMalformation(c *EvalCase) {
 	}
 }
 
+
+// genNestedWeighted: flag rule -> segment "outer" whose weighted rule first tests segment "inner" (decided by inner's own
+// rules, not by its lists), with outer's weight placed next to the context's bucket for (outer key, outer salt). Any
+// state that the nested evaluation leaves behind (current segment, hash buffer, cached bucket) moves the context across
+// the split point.
+func (w *World) genNestedWeighted(c *EvalCase) {
+	r := w.r
+	sp := w.ctx.Singles[r.Intn(len(w.ctx.Singles))]
+	kind := sp.Kind
+	rk := ""
+	if kind != "user" || r.P(0.5) {
+		rk = kind
+	}
+	outerSalt, innerSalt := r.Pick([]string{"osalt", "x", ""}), r.Pick([]string{"isalt", "y", "zz"})
+	innerIn := r.P(0.5) // whether the inner segment's rule matches everyone
+	inner := JObj(KV{"key", JStr("inner")}, KV{"included", JArr()}, KV{"excluded", JArr()}, KV{"salt", JStr(innerSalt)}, KV{"version", JInt(1)},
+		KV{"rules", JArr(JObj(KV{"id", JStr("ir")}, KV{"clauses", JArr(JObj(KV{"attribute", JStr("key")}, KV{"op", JStr("in")},
+			KV{"values", JArr(JStr("\x00never"))}, KV{"negate", JBool(innerIn)}, KV{"contextKind", JStr(kind)}))}))})
+	if r.P(0.4) { // the inner rule is weighted too (its own bucket, its own salt)
+		inner.Get("rules").A[0].Set("weight", JInt(r.Pick2([]int64{0, 100000, 50000})))
+		if rk != "" {
+			inner.Get("rules").A[0].Set("rolloutContextKind", JStr(rk))
+		}
+	}
+	var wt int64 = 50000
+	if b, ok := w.bucketOf(false, nil, rk, "outer", "", outerSalt); ok {
+		wt = int64(float64(b)*100000) + int64(r.Range(-1, 2))
+		if wt < 0 {
+			wt = 0
+		}
+	}
+	probe := JObj(KV{"attribute", JStr("")}, KV{"op", JStr("segmentMatch")}, KV{"values", JArr(JStr("inner"))}, KV{"negate", JBool(!innerIn)})
+	weighted := JObj(KV{"id", JStr("or")}, KV{"clauses", JArr(probe)}, KV{"weight", JInt(wt)})
+	if rk != "" {
+		weighted.Set("rolloutContextKind", JStr(rk))
+	}
+	rules := JArr(weighted)
+	if r.P(0.4) { // or: an earlier rule looks into the other segment and does not match; the weighted rule comes after it
+		miss := JObj(KV{"id", JStr("miss")}, KV{"clauses", JArr(JObj(KV{"attribute", JStr("")}, KV{"op", JStr("segmentMatch")},
+			KV{"values", JArr(JStr("inner"))}, KV{"negate", JBool(innerIn)}))})
+		weighted.Replace("clauses", JArr())
+		rules = JArr(miss, weighted)
+	}
+	outer := JObj(KV{"key", JStr("outer")}, KV{"included", JArr()}, KV{"excluded", JArr()}, KV{"salt", JStr(outerSalt)}, KV{"version", JInt(1)}, KV{"rules", rules})
+	flag := JObj(KV{"key", JStr("f0")}, KV{"on", JBool(true)}, KV{"prerequisites", JArr()}, KV{"targets", JArr()}, KV{"contextTargets", JArr()},
+		KV{"rules", JArr(JObj(KV{"id", JStr("r")}, KV{"variation", JInt(1)}, KV{"clauses", JArr(JObj(KV{"attribute", JStr("")}, KV{"op", JStr("segmentMatch")},
+			KV{"values", JArr(JStr("outer"))}, KV{"negate", JBool(false)}))}, KV{"trackEvents", JBool(false)}))},
+		KV{"fallthrough", JObj(KV{"rollout", JObj(KV{"variations", JArr(JObj(KV{"variation", JInt(0)}, KV{"weight", JInt(50000)}),
+			JObj(KV{"variation", JInt(2)}, KV{"weight", JInt(50000)}))})})},
+		KV{"offVariation", JInt(0)}, KV{"variations", JArr(JStr("v0"), JStr("v1"), JStr("v2"))}, KV{"salt", JStr("fsalt")}, KV{"version", JInt(1)})
+	form := []int{1, 1, 0, 4, 3}[r.Intn(5)]
+	c.Top = Item{Key: "f0", Form: form, Doc: flag}
+	c.Segs = []Item{{Key: "outer", Form: form, Doc: outer}, {Key: "inner", Form: form, Doc: inner}}
+}
+
 // GenEval produces one evaluation case.
 func GenEval(r *Rng, p *Profile) *EvalCase {
 	w := &World{r: r, p: p}
@@ -1082,6 +1146,10 @@ func GenEval(r *Rng, p *Profile) *EvalCase {
 	c.Recorder = r.P(p.PRecorderOpt)
 	if r.P(p.PSingleMal) && w.ctx.Invalid == 0 {
 		w.genSingleMalformation(c)
+		return c
+	}
+	if r.P(p.PNestedSeg) && w.ctx.Invalid == 0 {
+		w.genNestedWeighted(c)
 		return c
 	}
 	form := func() int {
